@@ -40,7 +40,9 @@ def gen(rng):
     off = client * size + rng.choice([0, 0, 2, 4])
     ops, live = [], []
     for _ in range(rng.randint(3, 30)):
-        if live and rng.random() < 0.45:
+        if rng.random() < 0.06:
+            ops.append(['x', rng.choice([off - 1, off - 2, off - size, off + size, off + size + 1, off + rng.randrange(size), -1, 0])])
+        elif live and rng.random() < 0.45:
             ops.append(['f', live.pop(rng.randrange(len(live)))])
         else:
             ops.append(['a', rng.choice([1, 1, 2, 2, 3, 4, 5, size - pos, max(1, (size - pos) // 2)]), rng.randrange(1000)])
@@ -53,7 +55,16 @@ def resolve(size, pos, off, ops):
     a = eng.ContiguousBlockAllocator(size, pos, off)
     live, out = [], []
     for op in ops:
-        if op[0] == 'a':
+        if op[0] == 'x':                # free of a raw address (foreign, never allocated, or by chance live)
+            try:
+                a.free(op[1])
+            except Exception:
+                out.append(['f', op[1]])
+                break
+            if op[1] in live:
+                live.remove(op[1])
+            out.append(['f', op[1]])
+        elif op[0] == 'a':
             CH.r = op[2]
             try:
                 r = a.alloc(op[1])
@@ -102,7 +113,7 @@ def main():
         tried += 1
         size, pos, off, ops = gen(rng)
         # frees carry an index into the live list until resolved
-        ops = [[o[0], rng.randrange(1000)] if o[0] == 'f' else o for o in ops]
+        ops = [[o[0], rng.randrange(1000)] if o[0] == 'f' else o for o in ops]   # 'x' keeps its raw address
         ops = resolve(size, pos, off, ops)
         consider(size, pos, off, ops)
         if len(found) >= 40:
